@@ -88,6 +88,7 @@ def text_batch(ctx, asm, items):
 
 def fwd_task(ctx, task):
     asm = kernel.boot()
+    encdrv.warm(asm)
     mn = task['mn']
     f = asm.INSTRUCTIONS[mn]
     acc = []
@@ -114,6 +115,7 @@ def fwd_task(ctx, task):
 
 def rev_task(ctx, hs):
     asm = kernel.boot()
+    encdrv.warm(asm)
     items = []
     for h in hs:
         d = rv32.decode16(h)
